@@ -232,6 +232,7 @@ static hawk_nde_t* parse_exponent (hawk_t* hawk, const hawk_loc_t* xloc);
 static hawk_nde_t* parse_unary_exp (hawk_t* hawk, const hawk_loc_t* xloc);
 static hawk_nde_t* parse_increment (hawk_t* hawk, const hawk_loc_t* xloc);
 static hawk_nde_t* parse_primary (hawk_t* hawk, const hawk_loc_t* xloc);
+static hawk_nde_t* parse_primary_withdc (hawk_t* hawk, const hawk_loc_t* xloc);
 static hawk_nde_t* parse_primary_ident (hawk_t* hawk, const hawk_loc_t* xloc);
 static hawk_nde_t* parse_hashidx (hawk_t* hawk, const hawk_oocs_t* name, const hawk_loc_t* xloc);
 
@@ -4894,7 +4895,7 @@ static hawk_nde_t* parse_primary_positional (hawk_t* hawk, const hawk_loc_t* xlo
 	if (get_token(hawk) <= -1) return HAWK_NULL;
 
 	ploc = hawk->tok.loc;
-	nde->val = parse_primary(hawk, &ploc);
+	nde->val = parse_primary_withdc(hawk, &ploc); /* $$$$...$0 nests as deep as the number of dollar signs */
 	if (HAWK_UNLIKELY(!nde->val)) goto oops;
 
 	return (hawk_nde_t*)nde;
@@ -5050,7 +5051,7 @@ static hawk_nde_t* parse_primary_getline (hawk_t* hawk, const hawk_loc_t* xloc, 
 		}
 
 		ploc = hawk->tok.loc;
-		nde->var = parse_primary(hawk, &ploc);
+		nde->var = parse_primary_withdc(hawk, &ploc);
 		if (HAWK_UNLIKELY(!nde->var)) goto oops;
 
 		if (!is_var(nde->var) && nde->var->type != HAWK_NDE_POS)
@@ -5073,7 +5074,7 @@ novar:
 		ploc = hawk->tok.loc;
 		/* TODO: is this correct? */
 		/*nde->in = parse_expr_withdc (hawk, &ploc);*/
-		nde->in = parse_primary(hawk, &ploc);
+		nde->in = parse_primary_withdc(hawk, &ploc); /* getline < getline < ... nests */
 		if (HAWK_UNLIKELY(!nde->in)) goto oops;
 
 		nde->in_type = HAWK_IN_FILE;
@@ -5275,6 +5276,7 @@ static hawk_nde_t* parse_primary (hawk_t* hawk, const hawk_loc_t* xloc)
 	hawk_nde_getline_t* nde;
 	hawk_nde_t* var = HAWK_NULL;
 	hawk_loc_t ploc;
+	hawk_oow_t npipes = 0;
 
 	left = parse_primary_nopipe(hawk, xloc);
 	if (!left) goto oops;
@@ -5303,6 +5305,16 @@ static hawk_nde_t* parse_primary (hawk_t* hawk, const hawk_loc_t* xloc)
 		if (hawk->ntok.type == TOK_GETBLINE) mbs = 1;
 		else if (hawk->ntok.type == TOK_GETLINE) mbs = 0;
 		else break;
+
+		/* each chained pipe wraps what has been parsed so far in one more
+		 * getline node. count it as one more level of nesting */
+		if (hawk->opt.depth.s.expr_parse > 0 &&
+		    hawk->parse.depth.expr + npipes >= hawk->opt.depth.s.expr_parse)
+		{
+			hawk_seterrnum (hawk, &hawk->tok.loc, HAWK_EEXPRNST);
+			goto oops;
+		}
+		npipes++;
 
 		/* consume ntok('getline') */
 		get_token(hawk); /* no error check needed as it's guaranteeded to succeed for preget_token() above */
@@ -5339,7 +5351,7 @@ static hawk_nde_t* parse_primary (hawk_t* hawk, const hawk_loc_t* xloc)
 			}
 
 			ploc = hawk->tok.loc;
-			var = parse_primary(hawk, &ploc);
+			var = parse_primary_withdc(hawk, &ploc);
 			if (var == HAWK_NULL) goto oops;
 
 			if (!is_var(var) && var->type != HAWK_NDE_POS)
@@ -5377,6 +5389,27 @@ oops:
 	if (var) hawk_clrpt (hawk, var);
 	hawk_clrpt (hawk, left);
 	return HAWK_NULL;
+}
+
+static hawk_nde_t* parse_primary_withdc (hawk_t* hawk, const hawk_loc_t* xloc)
+{
+	hawk_nde_t* nde;
+
+	/* perform depth check before parsing a primary expression nested
+	 * in another primary expression - $$$0, getline < getline < x */
+
+	if (hawk->opt.depth.s.expr_parse > 0 &&
+	    hawk->parse.depth.expr >= hawk->opt.depth.s.expr_parse)
+	{
+		hawk_seterrnum (hawk, xloc, HAWK_EEXPRNST);
+		return HAWK_NULL;
+	}
+
+	hawk->parse.depth.expr++;
+	nde = parse_primary(hawk, xloc);
+	hawk->parse.depth.expr--;
+
+	return nde;
 }
 
 static hawk_nde_t* parse_variable (hawk_t* hawk, const hawk_loc_t* xloc, hawk_nde_type_t type, const hawk_oocs_t* name, hawk_oow_t idxa)
